@@ -113,7 +113,13 @@ Script(T) ==
              [op |-> "flip", d |-> "z"],
              [op |-> "nbassign", d |-> "x", s |-> "z"],
              [op |-> "assignbits", d |-> "z", b |-> B!AltBits(B!NBits(T), 1)],
-             [op |-> "flip", d |-> "x"] >>
+             [op |-> "flip", d |-> "x"] >>,
+          \* F: default construction T() makes fresh field objects every time (no shared defaults)
+          << [op |-> "default", d |-> "x"],
+             [op |-> "default", d |-> "y"] >>,
+          all("x", "inplace"),
+          << [op |-> "default", d |-> "z"],
+             [op |-> "assign", d |-> "x", s |-> "y"] >>
         >>)
 
 \* toggle -> mutate with the complement of the current leaf value
@@ -177,7 +183,7 @@ Spec == Init /\ [][Next]_mvars
 ShapeInv == (phase = "run" /\ pc = 0) => B!ShapeOK(shape, ExhBits)
 \* every script step is enabled: no behaviour stops early, every behaviour ends in Emit
 NotStuck == (phase = "run" /\ todo # <<>>) => B!Enabled(shape, st, Resolve(shape, st, Head(todo)))
-Complete == phase = "done" => pc = Len(log) /\ pc = 8 * Len(B!Layout(shape)) + 16
+Complete == phase = "done" => pc = Len(log) /\ pc = 9 * Len(B!Layout(shape)) + 20
 \* no aliasing: only the destination object of the step changes; <<= leaves cur alone; the new
 \* value of the destination is well formed and determined by its packed bits
 Frame == [][(phase = "run" /\ pc' = pc + 1) =>
